@@ -76,7 +76,16 @@ def removable_minimum(fba, w, z):
     return solve(lp, cost, "min")
 
 
-def check_model(net, bounds, P, stats):
+def check_model(net, bounds, P, stats, origin=None):
+    out = _check_model(net, bounds, P, stats, origin)
+    if origin:
+        for sg, cs, _ in out:
+            sg["origin"] = origin
+            cs["origin"] = origin
+    return out
+
+
+def _check_model(net, bounds, P, stats, origin=None):
     import numpy as np
     from cobra.flux_analysis.loopless import add_loopless, loopless_solution
 
@@ -101,8 +110,18 @@ def check_model(net, bounds, P, stats):
             st, z, x0 = fba.optimum()
             if st != OPT:
                 continue
+            if origin:
+                model = families.build_model(mets, rxns)
             model.objective = {model.reactions.get_by_id(oid): 1}
             model.objective_direction = direction
+            if origin:
+                from .. import origins
+
+                try:
+                    model = origins.derive(model, origin)
+                except origins.OriginUnavailable:
+                    stats["origin_unavailable"] = stats.get("origin_unavailable", 0) + 1
+                    continue
             c = np.array([obj.get(r, 0) for r in ids], dtype=float)
             starts = [("own", None)] + [("vertex%d" % k, x) for k, x in enumerate(start_vectors(fba, z))]
             for sname, w in starts:
@@ -223,6 +242,13 @@ def run_task(payload):
     for net in payload["nets"]:
         net = tuple(tuple(c) for c in net)
         for bounds in families.bound_assignments(net, P["d"], P["menu"]):
+            if payload.get("origins"):
+                from .. import origins
+
+                for origin in origins.ORIGINS:
+                    stats["models_from_origins"] = stats.get("models_from_origins", 0) + 1
+                    violations.extend(check_model(net, bounds, P, stats, origin))
+                continue
             stats["models"] = stats.get("models", 0) + 1
             violations.extend(check_model(net, bounds, P, stats))
     return {"violations": violations[:300], "stats": stats}
@@ -233,7 +259,7 @@ def replay(case):
 
     net = tuple(tuple(c) for c in case["net"])
     bounds = tuple((_u(a), _u(b)) for a, b in case["bounds"])
-    out = check_model(net, bounds, params("thorough"), {})
+    out = check_model(net, bounds, params("thorough"), {}, case.get("origin"))
     return [{"sig": s, "detail": d} for s, c, d in out if json.loads(json.dumps(c)) == case]
 
 
@@ -247,6 +273,13 @@ def explore(ctx):
     off = ctx.seed % len(nets)
     nets = nets[off:] + nets[:off]
     payloads = [{"params": P, "nets": nets[i:i + 1]} for i in range(0, len(nets), 1)]
+    # origins: the cyclic members with at most three reactions (thorough: all of the quick set), default bounds, reached by
+    # every other public route (mc/origins.py)
+    from .. import origins
+
+    PO = dict(P, d=0)
+    no = [n for n in nets if len(n) <= 3] if ctx.tier == "quick" else [n for n in nets if len(n) <= 4][:200]
+    payloads += [{"params": PO, "nets": no[i:i + 1], "origins": True} for i in range(0, len(no), 1)]
     stats = {}
     with ctx.pool(timeout=3000) as pool:
         for i, status, res in pool.imap(payloads):
@@ -268,6 +301,9 @@ def explore(ctx):
                 % (P["nm"], P["nr"], P["d"], len(P["menu"]), P["directions"]),
         "exhaustive": True, "networks_with_cycle": len(nets), "models": stats.get("models", 0),
         "exactlp_selftest_lps": n_self,
+        "origins_pass": "%d cyclic networks x %d origins (%s): %d models; route itself failed for %d" % (
+            len(no), len(origins.ORIGINS), ", ".join(origins.ORIGINS), stats.get("models_from_origins", 0),
+            stats.get("origin_unavailable", 0)),
     })
     ctx.sample({"net": [list(c) for c in nets[0]]})
     ctx.assumptions += ["starting vectors are optimal solutions of the same model (documented requirement)",
